@@ -42,10 +42,12 @@ ASSUMPTIONS = [
 TIERS = {
     # timeouts are generous on purpose (a loaded machine must not turn into exit 2)
     "quick": dict(tree="MC_Codec_tree_quick.cfg", tree_prop=None, struct="MC_Codec_struct_quick.cfg",
+                  body="MC_Codec_body_quick.cfg",
                   pkt="MC_Codec_pkt_quick.cfg", rand_classes=200, dgrand=1500, pkrand=1500,
                   short_shards=6, rand_shards=3, judge_par=6, timeout=900),
     "thorough": dict(tree="MC_Codec_tree_emit_thorough.cfg", tree_prop="MC_Codec_tree_thorough.cfg",
                      struct="MC_Codec_struct_thorough.cfg", pkt="MC_Codec_pkt_thorough.cfg",
+                     body="MC_Codec_body_thorough.cfg",
                      rand_classes=None, dgrand=30000, pkrand=30000,
                      short_shards=48, rand_shards=24, judge_par=14, timeout=3000),
 }
@@ -275,6 +277,9 @@ def run_dgram(acc, drv, tier, rnd):
     def a_struct():
         return tlc_vectors(acc, T["struct"], 4, to)
 
+    def a_body():
+        return tlc_vectors(acc, T["body"], 6, to)
+
     def a_treeprop():
         if T["tree_prop"]:
             res = vlib.tlc("MC_Codec", T["tree_prop"], workers=8, timeout=to, javaopts="-Xmx8g -XX:ParallelGCThreads=4")
@@ -299,8 +304,9 @@ def run_dgram(acc, drv, tier, rnd):
         return drive(drv, "dgrand", dict(VERIF_N=str(n)),
                      args=["-rapid.checks=%d" % n, "-rapid.seed=%d" % (vlib.seed() + 1000003), "-rapid.nofailfile"], timeout=to)
 
-    with ThreadPoolExecutor(max_workers=5) as ex:
+    with ThreadPoolExecutor(max_workers=6) as ex:
         f_tree, f_struct, f_prop = ex.submit(a_tree), ex.submit(a_struct), ex.submit(a_treeprop)
+        f_body = ex.submit(a_body)
         f_short, f_rand = ex.submit(b_short), ex.submit(b_rand)
         shorts, (rand_out, rand_crash) = f_short.result(), f_rand.result()
         # judges run while TLC is still generating vectors
@@ -317,9 +323,9 @@ def run_dgram(acc, drv, tier, rnd):
                 if not crash:
                     fh.write(open(o).read())
         judge_file(acc, allshort, T["short_shards"], T["judge_par"], to, "dgshort")
-        vec_tree, vec_struct = f_tree.result(), f_struct.result()
+        vec_tree, vec_struct, vec_body = f_tree.result(), f_struct.result(), f_body.result()
         f_prop.result()
-    replay_vectors(acc, drv, "dgvec", vec_tree + vec_struct, to)
+    replay_vectors(acc, drv, "dgvec", list(dict.fromkeys(vec_tree + vec_struct + vec_body)), to)
     return exhaustive[0]
 
 
@@ -422,7 +428,8 @@ def run(prop, tier, replay=None):
         evaluations=acc.judged + acc.replayed,
         distinct_nontrivial=len(nontrivial),
         rule="spec->code: every state of the MC_Codec state machines (datagram tree over the 36-octet "
-             "alphabet, canonical boundary datagrams + structural mutations, boundary packets) is executed on "
+             "alphabet, canonical boundary datagrams + structural mutations, well-framed datagrams of every type with "
+             "every small body over {00,01,61,FF}, boundary packets) is executed on "
              "the real code; code->spec: exhaustive classes of datagrams of length <= 3 (%s), rapid "
              "structure-aware datagrams up to 8192 octets / rapid legal packets, all 65536 short topic ids, "
              "each real outcome judged by TLC.  distinct = distinct (packet type, structural class, real "
@@ -435,7 +442,7 @@ def run(prop, tier, replay=None):
         exhaustive_subspaces=(["all 65536 short topic ids", "MC_Codec pkt boundary packet set"] if prop == "C21" else
                               (["all datagrams of length <= 3 (2^24+2^16+2^8+1) on the real decoder, judged by TLC"]
                                if exhaustive else ["all datagrams of length <= 2 and all of length 3 starting with 0x01"])
-                              + ["MC_Codec tree and struct state spaces (every state replayed on the real decoder)"]),
+                              + ["MC_Codec tree, struct and body state spaces (every state replayed on the real decoder)"]),
         vectors_replayed_on_impl=acc.replayed, records_judged_by_tlc=acc.judged,
         accepted_by_real_decoder=acc.accepted, panics_observed=acc.panics,
         tlc_runs=acc.tlc_runs[:40], acceptance_differences={"/".join(k): n for k, n in acc.info.items()},
